@@ -1408,3 +1408,7 @@ mod tests {
         assert!(cookie.is_some());
     }
 }
+
+#[cfg(all(test, pendulum_project_ntpd_rs_verif))]
+#[path = "/verif/harness/ntp_proto/probe_extension_fields.rs"]
+pub(crate) mod verif_probe;
